@@ -296,6 +296,12 @@ class XformRelay(Actor):
                 return
             nl.append(x)
         client_edns = any(rr[1] == proto.T_OPT for rr in q.ar)
+        if client_edns and self.edns0 == "formerr":
+            # a pre-EDNS0 resolver (RFC 6891 section 7): any query carrying an OPT record is answered FORMERR
+            self.stats["formerr"] = self.stats.get("formerr", 0) + 1
+            hdr = struct.pack(">HHHHHH", q.id, 0x8181, 1, 0, 0, 0)
+            self.send(53, client, hdr + proto.encode_name(labels) + struct.pack(">HH", t, c), self.latency)
+            return
         rport = self.cmap.get(client)
         if rport is None:
             rport = self.next_port
@@ -376,7 +382,7 @@ class XformRelay(Actor):
             rrs.append((rt, nrd))
         out = proto.build_answer_raw(q.id, labels, t, rrs, rcode=a.rcode, aa=False, qclass=c)
         limit = self.size_limit
-        if not (self.edns0 and client_edns):
+        if not (self.edns0 is True and client_edns):
             limit = 512 if limit is None else min(limit, 512)
         if limit is not None and len(out) > limit:
             self.stats["oversize"] += 1
